@@ -786,10 +786,30 @@ def generate(repo):
     fn = "wasi__threadX2Dspawn"
     where = f"{cpath}:{fn}"
     body = nodecl(src.body(fn))
-    e0 = src.need(fn, "nextThreadID = $N;", "initial value of the static counter")
+    locs = src.locals_of(fn)
+    ctr = locs.get("nextThreadID")
+    if ctr is None or ctr[0] != "static" or ctr[2] is None or ctr[2][0] != "num":
+        raise ExtractFail(where, f"`nextThreadID` is not a static local with a constant initialiser (the id counter lives across calls): {ctr}")
+    e0 = {"N": ctr[2]}
     lp = src.find(fn, "while ($fe->func != NULL) { if ($M) { $sf = $fe->func; break; } $fe += 1; }")
+    lookup_guarded = False
+    if lp is None:
+        # the scan guarded by the result variable itself: skipped when that variable is already set
+        lp = src.find(fn, "while ($sf == NULL && $fe->func != NULL) { if ($M) { $sf = $fe->func; break; } $fe += 1; }")
+        lookup_guarded = lp is not None
     if lp is None:
         raise ExtractFail(where, "export lookup loop not recognised:\n" + src.text(fn)[:2500])
+    if lp["sf"][0] != "id" or lp["sf"][1] not in locs:
+        raise ExtractFail(where, f"the lookup result `{show(lp['sf'])}` is not a local variable of the function")
+    sf_storage = locs[lp["sf"][1]][0]
+    if sf_storage == "automatic":
+        if src.find(fn, f"{show(lp['sf'])} = NULL;") is None:
+            raise ExtractFail(where, f"automatic lookup result `{show(lp['sf'])}` is not set to NULL before the scan")
+    elif locs[lp["sf"][1]][2] != ("num", 0):
+        raise ExtractFail(where, f"static lookup result `{show(lp['sf'])}` with initialiser {locs[lp['sf'][1]][2]}")
+    for v in ("fe",):
+        if lp[v][0] != "id" or locs.get(lp[v][1], ("?",))[0] != "automatic":
+            raise ExtractFail(where, f"the export cursor `{show(lp[v])}` is not an automatic local")
     src.need(fn, f"{show(lp['fe'])} = instance->funcExports;", "start of the export table")
     e3 = src.need(fn, f"if ({show(lp['sf'])} == NULL) {{ return $R; }}", "missing-export return")
     blk = src.need(fn, "$blk = calloc(1, sizeof(ThreadStartArg));", "allocation of the ThreadStartArg block")["blk"]
@@ -872,6 +892,14 @@ def generate(repo):
         w(f"def exportNameMatches (name : String) : Bool := (name.toList.take {n}) == (threadStartExport.toList.take {n})")
     else:
         raise ExtractFail(where, f"export comparison not understood: `{show(M)}`")
+    w("/-- storage class of the variable the export lookup stores its result in: \"automatic\" = the lookup is done by")
+    w("    every call, over the CALLING instance's export table; \"static\" = the result survives the call, for every")
+    w("    instance in the process -/")
+    w(f"def spawnLookupStorage : String := {lean_str(sf_storage)}")
+    w("/-- is the scan skipped when that variable is already non-NULL (`while (startFunc == NULL && …)`)? -/")
+    w("def spawnLookupSkippedWhenSet : Bool := " + ("true" if lookup_guarded else "false"))
+    w("/-- storage class of the id counter `nextThreadID` (ids are fresh across all calls of the process) -/")
+    w(f"def threadCounterStorage : String := {lean_str(ctr[0])}")
     w("/-- thread-spawn: the id-relevant events of the function in source order (traces removed): where the")
     w("    fetch-and-add result goes, newChild, thread creation, any access to the ThreadStartArg block after")
     w("    creation (the new thread frees that block), what is returned -/")
